@@ -267,4 +267,34 @@ example : ∃ s' r n, 1 ≤ 1 ∧ gc (after 8 1 progLru histRet) = (s', .ok ()) 
     Reach.step (r := ⟨2, 5, 5, [⟨.derived ⟨1, 0⟩, 5⟩]⟩) (Reach.refl _) (by decide +kernel) (by decide +kernel),
     by decide, by decide +kernel, by decide +kernel⟩
 
+/-- **Served without re-execution.**  After a collection that returns, calling a query the property
+names (retained, or among the `cap` most recent distinct top-level calls) — or anything it depends
+on — that was verified in the current epoch (i.e. called since the last source change) runs NO
+body and returns the stored value: the collector kept the node with value and stamps unchanged
+(`C03_retention`), and a node verified in the current epoch is served from the cache.  (If a source
+changed in between, whether a body runs is C02's question, not the collector's.) -/
+theorem C03_served_without_execution (fuel cap : Nat) (P : Prog) (pre : List Op) (hcap : 1 ≤ cap) (hfuel : 1 ≤ fuel)
+    (s' : Storage) (hgc : gc (after fuel cap P pre) = (s', .ok ()))
+    (r : NodeId) (hr : r ∈ lastDistinct cap (callIds fuel P (initS cap P) pre) ++ (after fuel cap P pre).retained.map (·.1))
+    (f a : Nat) (hn : Reach (after fuel cap P pre).derived r (nodeOf P f a)) (rev : Rev)
+    (hrev : alookup (after fuel cap P pre).derived (nodeOf P f a) = some rev) (htv : rev.tv = (after fuel cap P pre).epoch)
+    (hstk : (after fuel cap P pre).stack = []) :
+    (step fuel P s' (.call f a)).1.runs = s'.runs ∧
+      ((step fuel P s' (.call f a)).2 = .dead ∨ (step fuel P s' (.call f a)).2 = .val rev.val) := by
+  have hkeep := C03_retention fuel cap P pre hcap s' hgc r hr (nodeOf P f a) hn
+  obtain ⟨he, _, _, _, _, _, _⟩ := C03_gc_frame _ _ hgc
+  obtain ⟨keep, _, hs'⟩ := gc_ok _ _ hgc
+  have hst' : s'.stack = [] := by rw [hs']; exact hstk
+  have := step_call_verified_runs (P := P) fuel hfuel s' f a rev hst' (by rw [hkeep]; exact hrev) (by rw [he]; exact htv)
+  exact ⟨this.1, this.2.2⟩
+
+/- Non-vacuity: capacity 1; `(0,0)` is retained and was called after the last write; the collection
+drops `(1,2)`; the next call of `(0,0)` — and of its dependency `(1,0)` — runs nothing. -/
+example :
+    (gc (after 8 1 progLru histRet)).2 = .ok () ∧
+    (⟨0, 0⟩ : NodeId) ∈ lastDistinct 1 (callIds 8 progLru (initS 1 progLru) histRet) ++ (after 8 1 progLru histRet).retained.map (·.1) ∧
+    ((alookup (after 8 1 progLru histRet).derived ⟨0, 0⟩).map (·.tv)) = some (after 8 1 progLru histRet).epoch ∧
+    (step 8 progLru (gc (after 8 1 progLru histRet)).1 (.call 0 0)).1.runs = (gc (after 8 1 progLru histRet)).1.runs := by
+  decide +kernel
+
 end IsoVerif.Props.C03
